@@ -9,8 +9,9 @@ namespace CC.Spec.LSeq
 def cmpNum (a b : Nat) : Int := if a < b then -1 else if b < a then 1 else 0
 def cmpKey (a b : Nat) : Int := cmpNum (a % 10) (b % 10)
 def predEven (v : Nat) : Bool := v % 2 == 0
-def cpPlus (v : Nat) : Nat := v + 1000
-def redF (x y : Nat) : Nat := (x * 3 + y + 1) % 1000003
+/-- the harness callbacks work on `uintptr_t`: arithmetic wraps at 2^64 -/
+def cpPlus (v : Nat) : Nat := (v + 1000) % 2 ^ 64
+def redF (x y : Nat) : Nat := ((x * 3 + y + 1) % 2 ^ 64) % 1000003
 
 /-! ## single-list operations -/
 def addFirst (l : List Nat) (x : Nat) : List Nat := x :: l
